@@ -442,4 +442,10 @@ example : (run true [] (init [1] 3 100) [.request, .advance 2008, .request, .adv
 example : (run true [] (init [1] 3 100) [.request, .reboot, .advance 50, .request]).2 =
     [.probe, .req [1] [1] 3 10 true, .req [1] [1] 3 15 false, .probe, .req [1] [1] 4 5 true] := by decide
 
+
+/-- `Client._send` repeats a request after `NotInTimeWindow` ONCE: the handler calls `_send_once`, not
+    itself, and there is no loop (shape of the code, generated) — what `Disco.request` and
+    `C12_retry_once` are built on. -/
+theorem C12_retry_shape : Snmp.Gen.retryOnceShape = true := by decide
+
 end Snmp.Props.C12
